@@ -23,7 +23,10 @@ def draw(tier, salt, n_quick=64, n_thorough=800, n_values=3):
         # one schema in four comes from the family aimed at externally sized
         # arrays whose sizer lives in an earlier part
         # and one in four from the fixed-roles family (nested dynamic elements, typedefs, odd unions)
-        defs = gen.gen_env_sizers(rnd) if len(envs) % 4 == 3 else gen.gen_env_roles(rnd) if len(envs) % 4 == 1 \
+        # one in four from the blocks family (partial padding: optionals / arrays / scalars of mixed alignment
+        # in the block after a dynamic field)
+        k = len(envs) % 4
+        defs = gen.gen_env_sizers(rnd) if k == 3 else gen.gen_env_roles(rnd) if k == 1 else gen.gen_env_blocks(rnd) if k == 2 \
             else gen.gen_env(rnd)
         env = S.Env(defs)
         if not cppwire.cpp_full_accepts(env):
